@@ -500,15 +500,54 @@ fn after_load(ctx: &mut Context) -> Value {
     out
 }
 
-fn result_json(r: &Result<(), String>) -> Value {
+fn result_json(r: &Result<(), String>, all: bool) -> Value {
     match r {
-        Ok(()) => json!({"outcome": "ok", "nmsg": 0}),
+        Ok(()) => json!({"outcome": "ok", "nmsg": 0, "cycle_reported": false}),
         Err(e) => {
             let lines: Vec<&str> = e.lines().collect();
             let n = if lines.len() > 1 { lines.len() - 1 } else { 1 };
-            let shown: Vec<String> = lines.iter().skip(if lines.len() > 1 { 1 } else { 0 }).take(6).map(|l| l.trim().chars().take(200).collect()).collect();
-            json!({"outcome": "err", "nmsg": n, "msgs": shown, "empty_text": e.trim().is_empty()})
+            let shown: Vec<String> = lines.iter().skip(if lines.len() > 1 { 1 } else { 0 }).take(if all { 400 } else { 6 }).map(|l| l.trim().chars().take(200).collect()).collect();
+            let cyc = lines.iter().any(|l| l.contains("dependency cycle"));
+            json!({"outcome": "err", "nmsg": n, "msgs": shown, "empty_text": e.trim().is_empty(), "cycle_reported": cyc})
         }
+    }
+}
+
+/// line edits of a bundled file: {"op": "del_line"|"dup_line", "i"} | {"op": "swap_lines", "i", "j"} | {"op": "set_line", "i", "text"}
+fn apply_edits(base: &str, edits: &Value) -> String {
+    let mut lines: Vec<String> = base.split('\n').map(|l| l.to_string()).collect();
+    for e in edits.as_array().map(|a| a.as_slice()).unwrap_or(&[]) {
+        let i = e["i"].as_u64().unwrap_or(0) as usize;
+        if i >= lines.len() {
+            continue;
+        }
+        match e["op"].as_str().unwrap_or("") {
+            "del_line" => {
+                lines.remove(i);
+            }
+            "dup_line" => {
+                let l = lines[i].clone();
+                lines.insert(i, l);
+            }
+            "swap_lines" => {
+                let j = e["j"].as_u64().unwrap_or(0) as usize;
+                if j < lines.len() {
+                    lines.swap(i, j);
+                }
+            }
+            "set_line" => lines[i] = e["text"].as_str().unwrap_or("").to_string(),
+            _ => (),
+        }
+    }
+    lines.join("\n")
+}
+
+fn base_text(name: &str) -> &'static str {
+    match name {
+        "definitions" => rink_core::DEFAULT_FILE.unwrap(),
+        "currency_units" => rink_core::CURRENCY_FILE.unwrap(),
+        "dates" => rink_core::DATES_FILE.unwrap(),
+        _ => "",
     }
 }
 
@@ -516,22 +555,49 @@ struct JobState {
     bundled_text: &'static str,
 }
 
+/// queries about what did load: any reply or error is fine, a crash (seen by the worker) is not
+fn run_probes(ctx: &mut Context, job: &Value, out: &mut Value) {
+    let mut qs: Vec<String> = vec![];
+    if let Some(q) = job["probe"].as_str() {
+        qs.push(q.to_string());
+    }
+    if let Some(a) = job["probes"].as_array() {
+        qs.extend(a.iter().filter_map(|x| x.as_str().map(|s| s.to_string())));
+    }
+    if qs.is_empty() {
+        return;
+    }
+    let res: Vec<bool> = qs.iter().map(|q| rink_core::eval(ctx, q).is_ok()).collect();
+    out["probe_ok"] = json!(res);
+}
+
 fn c13_job(_st: &mut JobState, job: &Value) -> Value {
-    if let Some(t) = job["defs"].as_str() {
+    let all = job["allmsgs"].as_bool().unwrap_or(false);
+    let mutated: Option<(String, String)> = job["mut"].as_object().map(|m| {
+        let base = m.get("base").and_then(|b| b.as_str()).unwrap_or("definitions").to_string();
+        let t = apply_edits(base_text(&base), m.get("edits").unwrap_or(&Value::Null));
+        (base, t)
+    });
+    let defs_text: Option<String> = job["defs"].as_str().map(|s| s.to_string()).or_else(|| match &mutated {
+        Some((b, t)) if b == "definitions" => Some(t.clone()),
+        _ => None,
+    });
+    if let Some(t) = defs_text {
         let mut ctx = Context::new();
         ctx.use_humanize = false;
-        let r = ctx.load_definitions(t);
-        let mut out = result_json(&r);
+        let r = ctx.load_definitions(&t);
+        let mut out = result_json(&r, all);
         out["kind"] = json!("defs");
         out["after"] = after_load(&mut ctx);
-        if let Some(q) = job["probe"].as_str() {
-            // a query about something that did load: any reply or error is fine, a crash is not
-            let r = rink_core::eval(&mut ctx, q);
-            out["probe_ok"] = json!(r.is_ok());
-        }
+        run_probes(&mut ctx, job, &mut out);
         return out;
     }
-    if let Some(t) = job["currency"].as_str() {
+    let units_text: Option<String> = match &mutated {
+        Some((b, t)) if b == "currency_units" => Some(t.clone()),
+        _ => None,
+    };
+    if job["currency"].is_string() || units_text.is_some() {
+        let live = job["currency"].as_str().map(|s| s.to_string()).unwrap_or_else(|| std::fs::read_to_string(SNAPSHOT).unwrap_or_default());
         let mut ctx = Context::new();
         ctx.use_humanize = false;
         let mut base_ok = Value::Null;
@@ -539,22 +605,29 @@ fn c13_job(_st: &mut JobState, job: &Value) -> Value {
             let r0 = ctx.load_definitions(_st.bundled_text);
             base_ok = json!(r0.is_ok());
         }
-        let units = job["units"].as_str().map(|s| s.to_string()).unwrap_or_else(|| rink_core::CURRENCY_FILE.unwrap().to_string());
-        let r = ctx.load_currency(t, &units);
-        let mut out = result_json(&r);
+        let units = units_text.unwrap_or_else(|| rink_core::CURRENCY_FILE.unwrap().to_string());
+        let r = ctx.load_currency(&live, &units);
+        let mut out = result_json(&r, all);
         out["kind"] = json!("currency");
         out["base_ok"] = base_ok;
         out["after"] = after_load(&mut ctx);
+        run_probes(&mut ctx, job, &mut out);
         return out;
     }
-    if let Some(t) = job["dates"].as_str() {
+    let dates_text: Option<String> = job["dates"].as_str().map(|s| s.to_string()).or_else(|| match &mutated {
+        Some((b, t)) if b == "dates" => Some(t.clone()),
+        _ => None,
+    });
+    if let Some(t) = dates_text {
         let mut ctx = Context::new();
         ctx.use_humanize = false;
-        ctx.load_date_file(t);
+        ctx.load_date_file(&t);
         let n = ctx.registry.datepatterns.len();
         // a date query must be answered (reply or error), and 1 + 1 as well
         let d = rink_core::eval(&mut ctx, "#2020-02-03 04:05#");
-        let mut out = json!({"outcome": "ok", "nmsg": 0, "kind": "dates", "patterns": n, "date_reply": d.is_ok()});
+        let d2 = rink_core::eval(&mut ctx, "#Feb 3, 2020#");
+        let mut out = json!({"outcome": "ok", "nmsg": 0, "cycle_reported": false, "kind": "dates", "patterns": n,
+                             "date_reply": d.is_ok(), "date_reply2": d2.is_ok()});
         out["after"] = after_load(&mut ctx);
         return out;
     }
